@@ -647,14 +647,14 @@ u_random(uint64_t idx, void *arg)
 void
 harness_run(void)
 {
-    size_t maxlen = vh_tier ? 9 : 7;
+    size_t maxlen = vh_tier ? 10 : 7;
     for (size_t n = 0; n <= maxlen; n++) {
         char gen[32];
         snprintf(gen, sizeof gen, "strings-%zu", n);
         for (uint64_t i = 0; i < (n == 0 ? 1u : n == 1 ? 5u : 25u); i++)
             vh_unit(gen, i, u_strings, (void *)(intptr_t)n);
     }
-    for (uint64_t i = 0; i < (vh_tier ? 2000u : 100u); i++)
+    for (uint64_t i = 0; i < (vh_tier ? 10000u : 100u); i++)
         vh_unit("random", i, u_random, NULL);
     static const char *req[] = { "payload encoded, compared and round-tripped", "raw input: frame delivered",
                                  "raw input: illegal sequence reported", "raw input: source end returned unchanged",
